@@ -5,6 +5,7 @@ import (
 	"fmt"
 	"net"
 	"runtime"
+	"sort"
 	"strings"
 	"sync"
 	"sync/atomic"
@@ -495,7 +496,9 @@ func runScript(sc *Script) *Outcome {
 	}
 	// let the server read what the client wrote while closing (TEARDOWN), then collect its log
 	srv.drain(300 * time.Millisecond)
-	for _, l := range srv.snapshotLog() {
+	lg := srv.snapshotLog()
+	sort.SliceStable(lg, func(i, j int) bool { return lg[i].Conn < lg[j].Conn }) // connections are handled concurrently
+	for _, l := range lg {
 		se := "-"
 		if l.Session != "" {
 			se = strings.TrimPrefix(l.Session, "S")
